@@ -14,6 +14,26 @@ import (
 // ErrInjected is the error a simulated peer injects.
 var ErrInjected = errors.New("sim: injected I/O error")
 
+// injectable lists the errors a simulated reader may fail with: real readers
+// fail with their own errors, with wrapped errors, and with the io package's
+// sentinel errors (a truncated gzip stream reports io.ErrUnexpectedEOF).
+var injectable = []error{
+	ErrInjected,
+	io.ErrUnexpectedEOF,
+	fmt.Errorf("read tcp 10.0.0.1:4242: %w", ErrInjected),
+	io.ErrClosedPipe,
+	io.ErrNoProgress,
+	errors.New("sim: i/o timeout"),
+}
+
+// InjectedErr returns the error with the given index (mod the list).
+func InjectedErr(k int) error {
+	if k < 0 {
+		k = -k
+	}
+	return injectable[k%len(injectable)]
+}
+
 // keep is a retained reference to something the library returned, together
 // with a private copy taken on receipt (result-stability oracle).
 type keep struct {
@@ -23,15 +43,14 @@ type keep struct {
 	big       fmt.Stringer
 	copyOf    string
 	scribbled bool
-	// a result that lives in a caller-owned buffer stays meaningful only
-	// until the caller hands that buffer to the library again
-	owner *privObjs
-	slot  int
-	gen   int
+	// a result that lives in memory the caller recycles stays meaningful only
+	// until the caller hands that memory to the library again or writes to it
+	ctx *Ctx
+	seq int
 }
 
 func (k *keep) stale() bool {
-	return k.scribbled || k.owner != nil && k.owner.bufGen[k.slot] != k.gen
+	return k.scribbled || k.ctx != nil && k.bytes != nil && !k.ctx.untouchedSince(k.seq, k.bytes[:cap(k.bytes)])
 }
 
 func (k *keep) current() string {
@@ -83,13 +102,13 @@ func (r *Result) keepBytes(what string, b []byte) {
 	}
 }
 
-// keepBytesIn is keepBytes for a result appended to the caller-owned buffer
-// in the given slot (slot < 0: a fresh buffer).
+// keepBytesIn is keepBytes for a result that may live in memory the task
+// recycles (an append target, a slice it will reuse as a buffer).
 func (r *Result) keepBytesIn(what string, b []byte, x *Ctx, slot int64) {
 	r.keepBytes(what, b)
-	if b != nil && slot >= 0 && int(slot) < len(x.priv.bufs) {
+	if b != nil {
 		k := r.keeps[len(r.keeps)-1]
-		k.owner, k.slot, k.gen = x.priv, int(slot), x.priv.bufGen[slot]
+		k.ctx, k.seq = x, len(x.handed)
 	}
 }
 
